@@ -9,7 +9,7 @@ import (
 	"github.com/gordian-engine/gordian/internal/zzverif/vx"
 )
 
-var voteVariants = []string{"flip", "wrongkey", "crosskind", "otherround", "othertarget", "zerosig", "emptysig", "idrange", "idN", "idmax", "idlen0", "idlen1", "idlen3", "badpkh", "mix", "dupid", "emptymap"}
+var voteVariants = []string{"flip", "wrongkey", "crosskind", "otherround", "othertarget", "zerosig", "emptysig", "idrange", "idN", "idmax", "idlen0", "idlen1", "idlen3", "badpkh", "oldset", "mix", "dupid", "emptymap"}
 var phVariants = []string{"forgedNext", "forgedCur", "badhash", "nonval", "badsig", "nokey", "badpcp", "shortpcp", "foreignpcp", "duppcp", "emptypcp", "pcpidN", "pcpidlen1"}
 var replayVariants = []string{"ok", "lowpower", "byzonly", "nextround", "prevH", "nextH", "badhash", "badprev", "foreign", "blockB"}
 
@@ -64,6 +64,7 @@ func alphabet(level string) []string {
 				add(fmt.Sprintf("V:%s:3:X:%s", k, v))
 				add(fmt.Sprintf("V:%s:0:A@0,1:%s", k, v))
 				add(fmt.Sprintf("V:%s:3:B@0,2:%s", k, v))
+				add(fmt.Sprintf("V:%s:0:A@0,2:%s", k, v))
 			}
 		}
 	}
@@ -424,6 +425,33 @@ func exploreNode(c *vx.Ctx, props string, maxDev int, bfsDepth int, st *exploreS
 		}
 		c.Extra["engine_script2_len"] = len(s2)
 		c.Extra["engine_script2_executions"] = len(js)
+		runJobs(c, js, st, pl, each)
+	}
+	// Restart matrix (C02 "a restart injected after any event", C10): after every prefix of the first three heights
+	// the process is restarted and the environment then gives every sequence of up to 2 (thorough 3) answers from
+	// the strategy / timer / driver alphabet, so that a restarted state machine meets answers that differ from the
+	// ones its previous lifetime got.
+	{
+		answers := []string{"SR", "SR:A", "SR:B", "SR:nil", "SR:propose", "TF", "PROP", "V:p:oh:A", "V:c:oh:A"}
+		depth := 2
+		if maxDev >= 2 {
+			depth = 3
+		}
+		var js []vx.Job
+		var rec func(seed int, hist []string)
+		rec = func(seed int, hist []string) {
+			js = append(js, vx.Job{Exec: "node", Hist: hist, Args: map[string]string{"props": props, "mode": "raw", "seed": fmt.Sprint(seed)}})
+			if len(hist) >= depth+2 {
+				return
+			}
+			for _, a := range answers {
+				rec(seed, append(append([]string{}, hist...), a))
+			}
+		}
+		for seed := 1; seed <= 24; seed++ {
+			rec(seed, []string{"Restart", "SR"})
+		}
+		c.Extra["engine_restart_matrix_executions"] = len(js)
 		runJobs(c, js, st, pl, each)
 	}
 	if bfsDepth > 0 {
